@@ -211,6 +211,12 @@ class LocalOps:
         )
 
     def cancel_job(self, job_id):
+        # The pool does not answer a cancel request, so find out first whether
+        # there is anything to cancel; the caller reports the targets for
+        # which there was not.
+        state = self._client.status().get(str(job_id))
+        if state not in (LocalStatus.SUBMITTED, LocalStatus.RUNNING):
+            raise BackendError(f"Task {job_id} is not submitted or running.")
         self._client.cancel(job_id)
 
     def close(self):
